@@ -664,6 +664,40 @@ def _in_test_position(funcnode, boolop):
             return True
     return False
 
+def rule_t10(repo):
+    """`is_number()` is true of every numeral in normal form: 3, -3, 1 / 2, at any type.  The evaluator for natural numbers
+    returns the value of such a leaf as the value of a natural number; it may do so only for a non-negative integer (the
+    other forms are written with operations the natural numbers do not have, and what they denote there is not the
+    number they spell).  The return of the `dest_number()` value in nat_eval is behind both tests."""
+    from ..astutil import comparison_holding
+    res = RuleResult('C05.T10', 'the evaluator for natural numbers takes the value of a numeral only if it is a non-negative integer', floor=1)
+    f = repo.func('data/nat.py', 'nat_eval')
+    cfg = cfg_of(f.node)
+    flow = flow_of(f.node)
+    rets = [r for r in cfg.return_nodes() if r.ast.value is not None and
+            (lambda v: isinstance(v, ast.Call) and call_attr(v) == 'dest_number')(flow.inline(r.ast.value))]
+    need(rets, 'nat_eval: the return of a numeral\'s value (dest_number) not found')
+
+    def is_value(e):
+        v = flow.inline(e)
+        return isinstance(v, ast.Call) and call_attr(v) == 'dest_number'
+
+    def nonneg(e, pol):
+        return any(is_value(a) and isinstance(b, ast.Constant) and ((op is ast.GtE and b.value == 0) or (op is ast.Gt and b.value == -1))
+                   for op, a, b in comparison_holding(e, pol))
+
+    def integral(e, pol):
+        return pol and isinstance(e, ast.Call) and is_name(e.func, 'isinstance') and len(e.args) == 2 and is_value(e.args[0]) and is_name(e.args[1], 'int')
+    e1, e2 = cfg.establishing_edges(nonneg), cfg.establishing_edges(integral)
+    for i, r in enumerate(rets):
+        ok1 = bool(e1) and cfg.path_avoiding(r, skip_edges=e1) is None
+        ok2 = bool(e2) and cfg.path_avoiding(r, skip_edges=e2) is None
+        res.add('data/nat.py :: nat_eval :: numeral-leaf#%d' % (i + 1), ok1 and ok2,
+                'returned only for a non-negative integer' if ok1 and ok2 else
+                'line %d returns the value of any numeral%s: -(3::nat) evaluates to -3 and the trusted step proves -(3::nat) + 3 = 0' % (
+                    r.lineno, '' if ok2 else ' (fractions included)'), 'data/nat.py:%d' % r.lineno)
+    return res
+
 
 def rules(repo):
-    return [rule_t1(repo), rule_t2(repo), rule_t3(repo), rule_t4(repo), rule_t5(repo), rule_t6(repo), rule_t7(repo), rule_t8(repo), rule_t9(repo)]
+    return [rule_t1(repo), rule_t2(repo), rule_t3(repo), rule_t4(repo), rule_t5(repo), rule_t6(repo), rule_t7(repo), rule_t8(repo), rule_t9(repo), rule_t10(repo)]
